@@ -17,10 +17,10 @@ import (
 	"reflect"
 	"runtime/debug"
 	"strings"
-	"time"
 	"sync"
 	"sync/atomic"
 	"testing"
+	"time"
 
 	"github.com/NethermindEth/juno/core"
 	"github.com/NethermindEth/juno/core/felt"
@@ -39,12 +39,12 @@ import (
 )
 
 type action struct {
-	Name  string   `json:"name"`
-	Size  int      `json:"size"`
-	Kinds []string `json:"kinds"`
-	Evs   []int    `json:"evs"`
-	Revs  []bool   `json:"revs"`
-	Graceful bool  `json:"graceful"` // Restart
+	Name     string   `json:"name"`
+	Size     int      `json:"size"`
+	Kinds    []string `json:"kinds"`
+	Evs      []int    `json:"evs"`
+	Revs     []bool   `json:"revs"`
+	Graceful bool     `json:"graceful"` // Restart
 }
 
 type id = []json.RawMessage // ["tx",n,i] | ["notfound"] | ["error"] | ...
@@ -105,12 +105,13 @@ const largeN = 140_000
 // empty slices and maps (null / empty array), pointer nil-ness (nil felt vs zero felt, nil GasPrice,
 // nil TotalGasConsumed, absent resource bound) and zero values. Only two representation details
 // are normalised:
-//   (1) bloom filters are compared by their serialised content (the bitset's spare capacity is
-//       not part of the value);
-//   (2) with lenient=true a nil slice / map equals an empty one. This is NOT used to accept a
-//       value; it only classifies a strict mismatch: if the values are equal leniently the
-//       divergence key ends in ":nil-vs-empty" (no hash in core/ distinguishes the two - every
-//       hash is length based - so such a finding is about the read API only), else ":value".
+//
+//	(1) bloom filters are compared by their serialised content (the bitset's spare capacity is
+//	    not part of the value);
+//	(2) with lenient=true a nil slice / map equals an empty one. This is NOT used to accept a
+//	    value; it only classifies a strict mismatch: if the values are equal leniently the
+//	    divergence key ends in ":nil-vs-empty" (no hash in core/ distinguishes the two - every
+//	    hash is length based - so such a finding is about the read API only), else ":value".
 var lenient = false
 
 func canon(v reflect.Value) reflect.Value {
@@ -242,7 +243,14 @@ type stored struct {
 
 var versions = []string{"0.13.2", "0.13.4", "0.14.0", "0.14.1"}
 
-func maxFelt() *felt.Felt { return new(felt.Felt).Sub(new(felt.Felt), felt.NewFromUint64[felt.Felt](1)) } // p-1
+// maxU128 is the largest protocol-valid price (prices are 128-bit; only those bits are hashed).
+func maxU128() *felt.Felt {
+	return new(felt.Felt).SetBytes(bytes.Repeat([]byte{0xff}, 16))
+}
+
+func maxFelt() *felt.Felt {
+	return new(felt.Felt).Sub(new(felt.Felt), felt.NewFromUint64[felt.Felt](1))
+} // p-1
 
 func timestamp(idx, number int) uint64 {
 	if (idx+number)%5 == 0 {
@@ -337,7 +345,7 @@ func concretise(g *chainkit.Gen, n *chainkit.Node, a action, number, idx int, co
 			inv.CallData = g.Felts(boundary)
 			if extreme && inv.Version.Is(3) {
 				inv.Tip = ^uint64(0)
-				inv.ResourceBounds[core.ResourceL1Gas] = core.ResourceBounds{MaxAmount: ^uint64(0), MaxPricePerUnit: maxFelt()}
+				inv.ResourceBounds[core.ResourceL1Gas] = core.ResourceBounds{MaxAmount: ^uint64(0), MaxPricePerUnit: maxU128()}
 			}
 			h, err := core.TransactionHash(inv, chainkit.Network)
 			if err != nil {
@@ -453,14 +461,14 @@ type retained struct {
 type sweeper struct {
 	retain   bool
 	retained []retained
-	kept    []kept
-	out     *vh.Result
-	backend string
-	replay  any
-	step    int
-	chain   []*stored
-	bc      *chainkit.Node
-	n       int
+	kept     []kept
+	out      *vh.Result
+	backend  string
+	replay   any
+	step     int
+	chain    []*stored
+	bc       *chainkit.Node
+	n        int
 }
 
 func (s *sweeper) bad(name, what, msg string, exp, obs any) {
@@ -478,8 +486,8 @@ func (s *sweeper) check(name string, wantKind string, want any, got any, err err
 		s.bad(name, "kind", fmt.Sprintf("specification says %s, juno %s (%v)", wantKind, k, err), wantKind, fmt.Sprintf("%s: %v", k, err))
 		return
 	}
-	if k == "found" && s.retain && got != nil {
-		s.retained = append(s.retained, retained{name, got, want})
+	if k == "found" && s.retain && got != nil && equal(want, got) {
+		s.retained = append(s.retained, retained{name, got, want}) // right now; must still be right at the end
 	}
 	if k == "found" && !equal(want, got) {
 		what := "value"
@@ -1214,19 +1222,31 @@ func concurrentWriters(out *vh.Result, pool []*stored, replay any) int {
 // instant a reader can observe: whatever height a reader sees, every block up to it is completely
 // readable and equal to what was stored. Readers run for the writer's whole lifetime, each under
 // recover; the writer stores 12 blocks of 3 transactions.
+// C07 quantifies over inputs, not schedules: a read that is wrong ONLY while a Store is in flight is
+// recorded as an OBSERVATION; a crash, and anything still wrong in the sequential sweep after the
+// writer has finished, are verdicts.
 func concurrentReaders(out *vh.Result, seed int64, replay any) int {
 	var mu sync.Mutex
 	total := 0
+	observations := []string{}
+	defer func() { out.Stats["observations"] = observations }()
 	for ci, cfg := range []struct {
 		backend  string
 		newState bool
 	}{{"memory", false}, {"pebblev2", true}} {
-		report := func(name, what, msg string) {
+		verdict := func(name, what, msg string) {
 			mu.Lock()
 			defer mu.Unlock()
-			out.Diverge(vh.Divergence{Key: fmt.Sprintf("accessor:concurrent-read:%s:%s", name, what),
-				What: fmt.Sprintf("[%s newState=%v] while blocks are being stored: %s", cfg.backend, cfg.newState, msg), Input: replay})
+			out.Diverge(vh.Divergence{Key: fmt.Sprintf("accessor:after-concurrency:%s:%s", name, what),
+				What: fmt.Sprintf("[%s newState=%v] %s", cfg.backend, cfg.newState, msg), Input: replay})
 		}
+		observe := func(name, what, msg string) {
+			mu.Lock()
+			defer mu.Unlock()
+			observations = append(observations, fmt.Sprintf("accessor:concurrent-read:%s:%s [%s newState=%v] while blocks are being stored: %s",
+				name, what, cfg.backend, cfg.newState, msg))
+		}
+		report := verdict // outside the race (producer, crashes)
 		g := chainkit.NewGen(seed*104729 + int64(ci))
 		twin := chainkit.NewNode(nil, cfg.newState)
 		var built []*stored
@@ -1266,6 +1286,10 @@ func concurrentReaders(out *vh.Result, seed int64, replay any) int {
 				bc := node.BC
 				for pass := 0; ; pass++ {
 					final := stop.Load() // the pass after the writer finished sees the whole chain
+					report := observe    // a pass that overlaps the writer only observes
+					if final {
+						report = verdict
+					}
 					h, err := bc.Height()
 					if err != nil {
 						if !errors.Is(err, db.ErrKeyNotFound) {
@@ -1328,7 +1352,7 @@ func concurrentReaders(out *vh.Result, seed int64, replay any) int {
 			}()
 			for n, st := range built {
 				if err := node.StoreBuilt(st.b); err != nil {
-					report("Store", "store-failed", fmt.Sprintf("block %d: %v", n, err))
+					observe("Store", "store-failed", fmt.Sprintf("block %d: %v", n, err))
 					return
 				}
 			}
@@ -1343,6 +1367,23 @@ func concurrentReaders(out *vh.Result, seed int64, replay any) int {
 			os.Exit(1)
 		}
 		total += int(reads.Load())
+		// sequentially, after everything has ended: the whole chain reads back as stored
+		for n, st := range built {
+			blk, err := node.BC.BlockByNumber(uint64(n))
+			if err != nil || !equal(st.b.Block, blk) {
+				verdict("BlockByNumber", "value", fmt.Sprintf("block %d after the round: err=%v", n, err))
+			}
+			su, err := node.BC.StateUpdateByNumber(uint64(n))
+			if err != nil || !equal(st.b.Update, su) {
+				verdict("StateUpdateByNumber", "value", fmt.Sprintf("state update %d after the round: err=%v", n, err))
+			}
+			for i, tx := range st.b.Block.Transactions {
+				got, err := node.BC.TransactionByHash(tx.Hash())
+				if err != nil || !equal(tx, got) {
+					verdict("TransactionByHash", "value", fmt.Sprintf("tx %d of block %d after the round: err=%v", i, n, err))
+				}
+			}
+		}
 		if c, ok := store.(interface{ Close() error }); ok {
 			_ = c.Close()
 		}
